@@ -18,6 +18,12 @@ Two families of cases:
                variables have their pre-run values, re-running gives the same answers, the answers do
                not depend on how earlier runs were abandoned, and they are the answers of an
                independent reference interpreter (harness/props/c03_ref.py).
+ kind 'sweep': queries ended by RecursionError at EVERY depth (harness/props/c03_sweep.py): a recursive structure builder
+               under a top-level goal (findall with several templates, nested findall, once, call/N, negation, ...) is run
+               under every recursion limit of a window, through evaluate_bounded and through a plain loop; after every run,
+               without gc.collect, every Variable must be in its pre-run state (looked at while the caller still holds the
+               generator object and after it dropped it), the answers seen must be a prefix of the unrestricted ones, and a
+               probe query on the same engine and variables must answer as on a fresh engine.  Oracle only.
 """
 import gc, random
 from lib import terms
@@ -32,12 +38,15 @@ THEOREMS = ['C03_unify_gen_restores', 'C03_unify_gen_close_restores', 'C03_unify
             'C03_throw_restores', 'C03_query_restores', 'C03_rerun_same', 'C03_consumer_throw_restores', 'C03_any_consumer_restores',
             'C03_compiled_query_restores', 'C03_bounded_consumer_restores', 'C03_machine_refines_irsem', 'C03_machine_refines_irsem_fuel', 'C03_machine_refines_facts', 'C03_queryF_nofacts',
             'C03_machine_refines_nquery', 'C03_machine_refines_nquery_fuel', 'C03_world_query_restores', 'C03_pyrows_realizes', 'C03_raising_predicate_realized',
-            'C03_machine_exception_passthrough', 'C03_machine_refines_nqueryE']
+            'C03_machine_exception_passthrough', 'C03_machine_refines_nqueryE',
+            'C03_findall_copy_raise_restores', 'C03_findall_copy_raise_bounded_restores', 'C03_findall_copy_raise_step']
 RULE = ("kind 'gen': non-trivial if the generator bound >= 2 cells or ran under >= 1 stacked unification, and the "
         "operation sequence abandons it at a yield (close/del after a yielding next) or resumes it. "
         "kind 'sched': non-trivial if some generator is started later than directly after its creation and >= 2 cells get bound. "
         "kind 'prog': non-trivial if the query made >= 2 bindings (>= 2 Variables bound at some answer) and "
-        "(k < #answers or the run ended by an exception). Distinct by hash of the case.")
+        "(k < #answers or the run ended by an exception). "
+        "kind 'sweep': non-trivial if >= 10 runs of the sweep were cut short by the recursion limit and the unrestricted query "
+        "binds >= 2 Variables at an answer. Distinct by hash of the case.")
 TRUSTED_BASE = [
     'Coq 8.16.1 kernel (coqc); vm_compute for the in-Coq evaluation of the UnifyGen model on every gen case',
     'no axioms: all C03 theorems are closed under the global context',
@@ -45,6 +54,9 @@ TRUSTED_BASE = [
     'and Engine/GenMachine.v (frames of emitted generator functions); UnifyGen is tied to /repo by the differential run, '
     'GenMachine by the intrinsic oracle on compiled programs (its step rules are the trusted reading of CPython for/break/return/yield/close)',
     'trusted: CPython finalises an unreferenced generator immediately (drop = close) and yield from forwards close/throw; exercised by the del / consumer-raise modes',
+    'trusted: a generator object held in a LOCAL of a frame that an exception leaves (findall: q; unify_arrays: iterators) is finalised when the '
+    'exception object and its traceback die, i.e. at the end of the except clause that handles it (evaluate_bounded: `except RuntimeError: pass`); the frame '
+    'machine closes it while the exception travels.  Tied by the recursion-limit sweeps (kind sweep), which look at the Variables directly after the handler, without gc',
     'harness: generators, drivers (harness/props/c03.py), reference interpreter (harness/props/c03_ref.py), parser of printed observations',
 ]
 ASSUMPTIONS = ['user-supplied Python predicates follow the generator discipline (bind only through unify generators they iterate) or raise',
